@@ -13,7 +13,7 @@ pub fn fixtures_dir() -> String {
 pub const BOUNDARY_LENGTHS: &[usize] = &[
     0, 1, 2, 3, 15, 16, 17, 31, 32, 33, 47, 48, 49, 63, 64, 65, 95, 96, 97, 127, 128, 129, 191, 192, 193, 255, 256, 257, 1023, 1024, 1025, 4095, 4096, 4097,
 ];
-pub const BIG_LENGTHS: &[usize] = &[65535, 65536, 65537];
+pub const BIG_LENGTHS: &[usize] = &[8191, 8192, 8193, 16383, 16384, 16385, 32767, 32768, 32769, 65535, 65536, 65537];
 pub const HUGE_LENGTHS: &[usize] = &[262_144, 1_048_576, 1_048_577];
 
 /// ASCII filler of exactly `n` bytes with position-dependent content
